@@ -268,4 +268,25 @@ PROPS = {
                         "only lowers ARCOUNT, the TSIG RR's octets stay behind the last record where no section reaches them",
                         "flips the RFC makes irrelevant must be accepted: the two ID octets (the digest uses the original ID), letter case in the key and algorithm names"],
     },
+    "C12": {
+        "level": "exploration",
+        "features": ["crypto", "hooks"],
+        "stages": [
+            {"mode": "native", "cpu_budget": 300},
+            {"mode": "asan", "shards": 4, "scale": 0.1, "tiers": ["thorough"], "cpu_budget": 900},
+        ],
+        "offline": ["dnssec_ref.py"],
+        "rule": "an evaluation is one RRset (owner of 0-4 labels under a random apex, every 4th a wildcard owner, mixed case; any zone record type from the "
+                "C05 generator; 1-4 distinct records in random order; TTL incl. 0 and 2^31-1; inception/expiration anywhere incl. across the 2^32 wrap and "
+                "backwards) signed with sign_rrset under a generated ECDSAP256/ECDSAP384/ED25519 key or an imported RSASHA256/RSASHA512 test key, through a "
+                "SignRaw wrapper that records the octets handed to the key: these must equal the RFC 4034 3.1.8.1 construction of the reference (own canonical "
+                "RDATA composer, own ordering, labels count, key tag); the RRSIG must verify with RrsigExt::signed_data + verify_signed_data as signed, "
+                "reordered, with owner case changed, TTL decremented, embedded names re-cased (types whose canonical form folds them), wildcard-expanded "
+                "(with the closest encloser reported), and on records re-parsed from a compressed message; each of ~20 alterations (every RRSIG field, "
+                "signature bits/length, public key bits, an RDATA bit, a record removed, sibling owner, class) must fail; key tags of random DNSKEY RDATA "
+                "(incl. RSA/MD5, odd lengths) and DS digests (SHA-1/256/384) equal the reference and, offline, Python hashlib; distinct = (type, algorithm, "
+                "records, wildcard, depth, validity class, ttl=0)",
+        "assumptions": ["ECDSA signatures are randomised, so signatures are verified, never compared",
+                        "duplicate records are not put into an RRset (RFC 2181 5)"],
+    },
 }
